@@ -58,7 +58,12 @@ class PipelineRunner:
         log = _log.bind(node=node.name)
         status = self.status[node.name]
         if status == "finished":
-            return self.state[node.name]
+            # a finished node may have been skipped (no value): that is an
+            # error only for a consumer that requires it
+            if required or node.name in self.state:
+                return self.state[node.name]
+            else:
+                return None
         elif status == "in-progress":
             raise PipelineError(f"pipeline cycle encountered at {node}")
         elif status == "failed":  # pragma: nocover
